@@ -1838,12 +1838,20 @@ impl Melda {
             // Update the winner to ensure that we do not change the view
             let data_r = self.data.read().expect("cannot_acquire_data_for_reading");
             //let merged = data_r.read_object(&winner)?;
-            let merged = self.read_object_at_revision(uuid, &rt_r, &winner)?;
+            // A deletion is adopted by recording a deletion, not an object holding the deletion marker
+            let merged = if winner.is_deleted() {
+                None
+            } else {
+                Some(self.read_object_at_revision(uuid, &rt_r, &winner)?)
+            };
             drop(winner);
             drop(rt_r);
             drop(data_r);
             drop(docs_r);
-            self.update_object(uuid, merged)?;
+            match merged {
+                Some(merged) => self.update_object(uuid, merged)?,
+                None => self.delete_object(uuid)?,
+            };
         }
         let docs_r = self
             .documents
